@@ -1,4 +1,7 @@
 import TR.Lemmas.RateLimiter
+import TR.Lemmas.RateLimiterLog
+import TR.Lemmas.RateLimiterF64
+import TR.Lemmas.RateLimiterBoundary
 /-!
 # C02 — the rate limiter admits at most `limit_for_period` calls per window
 
@@ -7,71 +10,240 @@ Quantification: all three window types, every `limit ≥ 1`, every `refresh_peri
 number of callers, every arrival / poll / cancellation order, every instant (time only moves by
 `adv`, so instants are non-decreasing; several operations may share one instant, including
 instants exactly on a window boundary), every inner script, and every allowed value of the
-observed choices (`rej`, `woke`). Each `try_acquire` is one critical section under the limiter's
-mutex, so a list of operations is every schedule.
+observed choices (`rej`, `woke`, `adm`, `b1`). Each `try_acquire` is one critical section under the limiter's
+mutex, so a list of operations is every schedule. For the sliding counter there is one more hypothesis, which the
+code needs as well (see "the zero estimate" below): the bucket is at least `10 · limit` nanoseconds long.
 
-`(run cfg ops).admits` is the list of `(caller, instant)` of the inner calls made so far;
-`admit_iff_granted` ties it to the `inner_call` events of the trace on one side and to the
-limiter's grants on the other.
+The statements are about the **event log** the correspondence check compares: `(run cfg ops).tlog` is the list of
+`(instant, event)` the driver prints as `t=<instant> <event>` (`log_is_what_is_printed`), and `callStamps` picks the
+`(caller, instant)` of its `inner_call` lines. The ghost `admits`, the limiter's `grants` and `wins` are tied to it
+by `admissions_are_the_inner_call_lines` and `admit_iff_granted`.
 -/
 namespace TR.Props.C02
 open TR TR.RateLimiter
+
+/-! ### the ghost history is the log -/
+
+/-- In every reachable state of every configuration: the timed log without its stamps is the event log; its stamps
+never decrease and never lie in the future; and the recorded admissions are exactly the `inner_call` lines with the
+instants printed in front of them, in order. -/
+theorem admissions_are_the_inner_call_lines (cfg : Cfg) (ops : List Op) :
+    (run cfg ops).tlog.map Prod.snd = (run cfg ops).log ∧
+    Sorted ((run cfg ops).tlog.map Prod.fst) ∧ (∀ p ∈ (run cfg ops).tlog, p.1 ≤ (run cfg ops).now) ∧
+    (run cfg ops).admits = callStamps (run cfg ops).tlog :=
+  let h := tinv_reachable cfg ops
+  ⟨h.logEq, h.sorted, h.stampLe, h.adm⟩
+
+/-- The stamp of every event of a step is the model's clock after that step — the number the driver prints in
+front of the event (`Driver.printEvs (m.now st') evs`; for the one-service machine `m.now` is this clock). -/
+theorem log_is_what_is_printed (cfg : Cfg) (s : State) (op : Op) :
+    ∃ evs, (stepS cfg s op).log = s.log ++ evs ∧
+      (stepS cfg s op).tlog = s.tlog ++ stamp (stepS cfg s op).now evs :=
+  tlog_stamp_is_printed cfg s op
 
 /-- A call reaches the wrapped service iff a `try_acquire` made for it took a permit, for callers
 admitted at once and after waiting alike: the `inner_call` events of the trace are, in order, the
 recorded admissions, and the admission instants are, in order, exactly the instants at which a
 `try_acquire` answered "granted" (so `Ok(Duration::ZERO)` never stands for a zero wait). -/
-theorem admit_iff_granted (cfg : Cfg) (hL : 1 ≤ cfg.limit) (hP : 1 ≤ cfg.period) (ops : List Op) :
+theorem admit_iff_granted (cfg : Cfg) (hG : Good cfg) (ops : List Op) :
     callList (run cfg ops).log = (run cfg ops).admits.map Prod.fst ∧
     (run cfg ops).admits.map Prod.snd = (run cfg ops).lim.grants := by
-  have h := inv_reachable cfg hL hP ops
-  exact ⟨h.calls, by have := h.grants; simpa using this⟩
+  have h := inv_reachable cfg ops
+  exact ⟨h.calls, by have := h.grants hG; simpa using this⟩
+
+/-- the same over the log alone: the instants of the `inner_call` lines are the limiter's grants -/
+theorem inner_call_instants_are_grants (cfg : Cfg) (hG : Good cfg) (ops : List Op) :
+    (callStamps (run cfg ops).tlog).map Prod.snd = (run cfg ops).lim.grants := by
+  rw [← (tinv_reachable cfg ops).adm]; exact (admit_iff_granted cfg hG ops).2
 
 /-- One step, first poll: the caller reaches the inner service in this step only if its
 `try_acquire` took a permit at this instant. -/
-theorem admission_at_once_is_a_grant (cfg : Cfg) (hL : 1 ≤ cfg.limit)
-    (ops : List Op) (c : Nat) (rej woke : Bool)
+theorem admission_at_once_is_a_grant (cfg : Cfg) (hG : Good cfg)
+    (ops : List Op) (c : Nat) (rej woke : Bool) (fx : Fx)
     (hph : phaseOf (run cfg ops) c = some .fresh)
-    (hadm : Admitted (phaseOf (stepS cfg (run cfg ops) (.poll c rej woke)) c)) :
-    (room cfg (run cfg ops).lim (run cfg ops).now).2 = true ∧
-    (stepS cfg (run cfg ops) (.poll c rej woke)).lim.grants = (run cfg ops).lim.grants ++ [(run cfg ops).now] :=
-  let h := fresh_admission cfg (run cfg ops) c rej woke hL hph hadm
+    (hadm : Admitted (phaseOf (stepS cfg (run cfg ops) (.poll c rej woke fx)) c)) :
+    (room cfg (run cfg ops).lim (run cfg ops).now fx).2 = true ∧
+    (stepS cfg (run cfg ops) (.poll c rej woke fx)).lim.grants = (run cfg ops).lim.grants ++ [(run cfg ops).now] :=
+  let h := fresh_admission cfg (run cfg ops) c rej woke fx hG (inv_reachable cfg ops) hph hadm
   ⟨h.1, h.2.1⟩
+
+/-- One step, a caller that had been told to wait: it reaches the inner service in this step only if its second
+`try_acquire` took a permit at this instant. -/
+theorem admission_after_wait_is_a_grant (cfg : Cfg) (hG : Good cfg)
+    (ops : List Op) (c arr lo hi : Nat) (rej woke : Bool) (fx : Fx)
+    (hph : phaseOf (run cfg ops) c = some (.sleeping arr lo hi))
+    (hadm : Admitted (phaseOf (stepS cfg (run cfg ops) (.poll c rej woke fx)) c)) :
+    (room cfg (run cfg ops).lim (run cfg ops).now fx).2 = true ∧
+    (stepS cfg (run cfg ops) (.poll c rej woke fx)).lim.grants = (run cfg ops).lim.grants ++ [(run cfg ops).now] :=
+  let h := sleeper_admission cfg (run cfg ops) c arr lo hi rej woke fx hG (inv_reachable cfg ops) hph hadm
+  ⟨h.1, h.2.2.1⟩
+
+/-! ### the window bounds, over the log -/
 
 /-- Fixed window: the limiter's own window starts cut time into consecutive windows
 `[s_k, s_{k+1})` at least `refresh_period` apart, every admission lies in the window it is filed
 under, no window holds more than `limit_for_period` admissions (`Cut`), and the admissions filed
-are exactly all inner calls (`flat … = admits`). -/
+are exactly the instants of the `inner_call` lines of the log. -/
 theorem fixed_windows (cfg : Cfg) (hk : cfg.kind = .fixed) (hL : 1 ≤ cfg.limit) (hP : 1 ≤ cfg.period)
     (ops : List Op) :
     Cut cfg.period cfg.limit (run cfg ops).lim.wins ∧
-    flat (run cfg ops).lim.wins = (run cfg ops).admits.map Prod.snd := by
-  have h := inv_reachable cfg hL hP ops
-  have hw := h.lim.win (by rw [hk]; decide)
-  exact ⟨hw.cut, by rw [hw.flat]; have := h.grants; simpa using this.symm⟩
+    flat (run cfg ops).lim.wins = (callStamps (run cfg ops).tlog).map Prod.snd := by
+  have hG := Good.of_not_counter cfg (by rw [hk]; decide) hL hP
+  have hw := ((inv_reachable cfg ops).lim hP).win (by rw [hk]; decide)
+  exact ⟨hw.cut, by rw [hw.flat]; exact (inner_call_instants_are_grants cfg hG ops).symm⟩
 
-/-- Sliding counter: the same statement with the limiter's bucket starts as the cut. -/
+/-- Sliding counter: the same statement with the limiter's bucket starts as the cut — for buckets of at least
+`10 · limit` nanoseconds (`hZ`; without it the code itself admits without a permit:
+`zero_estimate_admits_without_permit`). -/
 theorem counter_windows (cfg : Cfg) (hk : cfg.kind = .counter) (hL : 1 ≤ cfg.limit) (hP : 1 ≤ cfg.period)
-    (ops : List Op) :
+    (hZ : 10 * cfg.limit ≤ cfg.period * cfg.tickNs) (ops : List Op) :
     Cut cfg.period cfg.limit (run cfg ops).lim.wins ∧
-    flat (run cfg ops).lim.wins = (run cfg ops).admits.map Prod.snd := by
-  have h := inv_reachable cfg hL hP ops
-  have hw := h.lim.win (by rw [hk]; decide)
-  exact ⟨hw.cut, by rw [hw.flat]; have := h.grants; simpa using this.symm⟩
+    flat (run cfg ops).lim.wins = (callStamps (run cfg ops).tlog).map Prod.snd := by
+  have hG : Good cfg := ⟨hL, hP, fun _ => hZ⟩
+  have hw := ((inv_reachable cfg ops).lim hP).win (by rw [hk]; decide)
+  exact ⟨hw.cut, by rw [hw.flat]; exact (inner_call_instants_are_grants cfg hG ops).symm⟩
+
+/-- The property's existential, with nothing but the log in the statement: the instants of the `inner_call` lines
+can be cut into consecutive windows, none shorter than `refresh_period`, each holding at most `limit_for_period`. -/
+theorem windows_exist (cfg : Cfg) (hG : Good cfg) (hk : cfg.kind ≠ .slog) (ops : List Op) :
+    ∃ w, Cut cfg.period cfg.limit w ∧ flat w = (callStamps (run cfg ops).tlog).map Prod.snd := by
+  have hw := ((inv_reachable cfg ops).lim hG.period).win hk
+  exact ⟨_, hw.cut, by rw [hw.flat]; exact (inner_call_instants_are_grants cfg hG ops).symm⟩
 
 /-- Sliding log: any `limit_for_period + 1` consecutive admissions span at least
-`refresh_period`: `a[i + L] − a[i] ≥ P` for the admission instants `a`, for all `i`. -/
+`refresh_period`: `a[i + L] − a[i] ≥ P` for the instants `a` of the `inner_call` lines, for all `i`. -/
 theorem log_span (cfg : Cfg) (hk : cfg.kind = .slog) (hL : 1 ≤ cfg.limit) (hP : 1 ≤ cfg.period)
     (ops : List Op) (i : Nat)
-    (hi : i + cfg.limit < ((run cfg ops).admits.map Prod.snd).length) :
-    ((run cfg ops).admits.map Prod.snd)[i]'(by omega) + cfg.period
-      ≤ ((run cfg ops).admits.map Prod.snd)[i + cfg.limit] := by
-  have h := inv_reachable cfg hL hP ops
-  have hg : (run cfg ops).admits.map Prod.snd = (run cfg ops).lim.grants := by
-    have := h.grants; simpa using this
-  have hs := (h.lim.slog hk).span
+    (hi : i + cfg.limit < ((callStamps (run cfg ops).tlog).map Prod.snd).length) :
+    ((callStamps (run cfg ops).tlog).map Prod.snd)[i]'(by omega) + cfg.period
+      ≤ ((callStamps (run cfg ops).tlog).map Prod.snd)[i + cfg.limit] := by
+  have hG := Good.of_not_counter cfg (by rw [hk]; decide) hL hP
+  have hg := inner_call_instants_are_grants cfg hG ops
+  have hs := (((inv_reachable cfg ops).lim hP).slog hk).span
   simp only [hg] at hi ⊢
   exact hs i hi
+
+/-- Whatever the wait estimate does (any configuration with `period ≥ 1`): the **permits** the sliding counter /
+fixed window hands out always respect the windows. What a zero estimate breaks is only "admitted ⇒ permit". -/
+theorem permits_respect_windows (cfg : Cfg) (hk : cfg.kind ≠ .slog) (hP : 1 ≤ cfg.period) (ops : List Op) :
+    Cut cfg.period cfg.limit (run cfg ops).lim.wins ∧ flat (run cfg ops).lim.wins = (run cfg ops).lim.grants :=
+  let hw := ((inv_reachable cfg ops).lim hP).win hk
+  ⟨hw.cut, hw.flat⟩
+
+/-! ### the zero estimate (sliding counter)
+
+`estimate_wait_time` is at least `bucket / (10 · previous_count)`; `Duration::from_secs_f64` rounds it to whole
+nanoseconds; `try_acquire` returns `Ok(that)`; `acquire()` matches `Ok(Duration::ZERO)` as "permit acquired". -/
+
+/-- In a `Good` configuration the code cannot return a zero wait: whenever the exact weighted test fails, the exact
+estimate is at least one nanosecond. -/
+theorem no_zero_estimate (cfg : Cfg) (hG : Good cfg) (hk : cfg.kind = .counter) (l : Lim) (now : Nat)
+    (hprev : l.prev ≤ cfg.limit) (hlt : now - l.start < cfg.period)
+    (hno : ¬ (l.prev * (cfg.period - (now - l.start)) + l.cur * cfg.period < cfg.limit * cfg.period)) :
+    zeroOk cfg l now = false :=
+  counter_no_zero cfg l now hG hk hprev hlt hno
+
+/-- Conversely a zero wait needs a bucket shorter than `10 · previous_count` nanoseconds. -/
+theorem zero_estimate_needs_short_bucket (cfg : Cfg) (l : Lim) (now : Nat) (ht : 1 ≤ cfg.tickNs)
+    (hlt : now - l.start < cfg.period)
+    (hno : ¬ (l.prev * (cfg.period - (now - l.start)) + l.cur * cfg.period < cfg.limit * cfg.period))
+    (hz : zeroOk cfg l now = true) :
+    0 < l.prev ∧ l.cur < cfg.limit ∧ cfg.period * cfg.tickNs < 10 * l.prev :=
+  zeroOk_short_bucket cfg l now ht hlt hno hz
+
+/-- **Outside that range the model — like the code — admits without a permit, and C02's bound fails.** Sliding
+counter, limit 201, bucket of one microsecond (`tickNs = 1000`), timeout 0: after a full bucket (201 grants at
+t = 0) the estimate at t = 1 µs is `0.1 · 1000 / 201 < 0.5` ns, i.e. `Duration::ZERO`; here with limit 2 and a
+bucket of one nanosecond for a small kernel-checked witness: two grants at t = 0, then at t = 1 three callers
+observed to reach the wrapped service (`adm`) do so with no permit taken: five `inner_call`s, two grants, and
+three admissions in a window that may hold two. The real-code witness (limit 201, 1 µs, 403 calls) is
+`corpus/ratelimiter/c02-zero-estimate.ops`. -/
+theorem zero_estimate_admits_without_permit :
+    let cfg : Cfg := { kind := .counter, limit := 2, period := 1, timeout := 0, tickNs := 1 }
+    let arr := (List.range 5).map fun c => Op.arrive (c + 1) ⟨0, .ok⟩
+    let s := run cfg (arr ++ [.poll 1 false false { adm := true }, .poll 2 false false { adm := true }, .adv 1,
+      .poll 3 false false { adm := true }, .poll 4 false false { adm := true }, .poll 5 false false { adm := true }])
+    (callStamps s.tlog).map Prod.snd = [0, 0, 1, 1, 1] ∧ s.lim.grants = [0, 0] ∧
+    ¬ ((callStamps s.tlog).map Prod.snd = s.lim.grants) := by decide
+
+/-! ### the `f64` arithmetic of the sliding counter (see `Lemmas/RateLimiterF64.lean`) -/
+
+/-- Off the boundary every evaluation of the weighted count that is accurate to within `1/B` decides like the
+model's integer test: `n/d` the computed value, `X = prev·(B−e) + cur·B`. -/
+theorem f64_weighted_test_agrees_off_boundary (X L B n d : Nat) (hB : 0 < B)
+    (hlo : d * X < n * B + d) (hhi : n * B < d * X + d) (hne : X ≠ L * B) : (n < L * d ↔ X < L * B) :=
+  approx_decides X L B n d hB hlo hhi hne
+
+/-- … and every such evaluation of the bucket count decides `≥ 2` like the exact quotient, except at exactly two
+buckets. -/
+theorem f64_bucket_count_agrees_off_boundary (e B n d : Nat) (hB : 0 < B)
+    (hlo : d * e < n * B + d) (hhi : n * B < d * e + d) (hne : e ≠ 2 * B) : (2 * d ≤ n ↔ 2 * B ≤ e) :=
+  approx_buckets e B n d hB hlo hhi hne
+
+/-- The observed `f64` outcomes are consulted on those boundaries only: away from them the model's `try_acquire`
+does not depend on them. -/
+theorem f64_choices_only_on_boundary (cfg : Cfg) (l : Lim) (now : Nat) (a a' b b' : Bool)
+    (h2 : now - l.start ≠ 2 * cfg.period)
+    (hb : onBoundary cfg (counterRoll cfg l now b) (now - (counterRoll cfg l now b).start) = false) :
+    room cfg l now { adm := a, b1 := b } = room cfg l now { adm := a', b1 := b' } := by
+  have hr : ∀ x : Bool, room cfg l now { adm := x, b1 := b } = room cfg l now { adm := x, b1 := b' } := by
+    intro x
+    unfold room
+    cases hk : cfg.kind with
+    | fixed => rfl
+    | slog => rfl
+    | counter => simp only [roomCounter, counterRoll_b1_only_at_two_buckets cfg l now b b' h2]
+  rw [room_adm_only_on_boundary cfg l now a a' b hb, hr]
+
+/-- Whichever way the comparison on the boundary goes, the bound of this property holds (the theorems above
+quantify over all observed choices): an extra grant on the boundary still leaves the bucket with at most `limit`
+grants. Witness of such a grant — limit 4, bucket 44 ms, the real code grants the fifth call at t = 77
+(weighted count exactly 4): `corpus/ratelimiter/c02-counter-f64-boundary.ops`. -/
+example :
+    let cfg : Cfg := { kind := .counter, limit := 4, period := 44, timeout := 0 }
+    let arr := (List.range 10).map fun c => Op.arrive (c + 1) ⟨0, .ok⟩
+    let s := run cfg (arr ++ [.poll 1 false false, .poll 2 false false, .poll 3 false false, .poll 4 false false,
+      .adv 44, .poll 10 true false, .adv 11, .poll 5 false false, .adv 11, .poll 6 false false, .adv 11,
+      .poll 7 false false, .poll 8 false false { adm := true }, .poll 9 true false])
+    s.lim.wins = [(44, [55, 66, 77, 77]), (0, [0, 0, 0, 0])] ∧ s.lim.prev = 4 ∧ s.lim.cur = 4 ∧
+    phaseOf s 9 = some (.done false) := by decide
+
+/-! ### outside the quantifier: `limit_for_period = 0`, `refresh_period = 0` (the builder validates neither) -/
+
+/-- `limit = 0`, fixed window or sliding counter: no call ever reaches the wrapped service. -/
+theorem limit_zero_admits_nobody (cfg : Cfg) (hL : cfg.limit = 0) (hk : cfg.kind ≠ .slog) (hP : 1 ≤ cfg.period)
+    (ht : 1 ≤ cfg.tickNs) (ops : List Op) : callStamps (run cfg ops).tlog = [] := by
+  rw [← (tinv_reachable cfg ops).adm]
+  exact (TR.RateLimiter.limit_zero_admits_nobody cfg hL hk hP ht ops).1
+
+/-- `limit = 0`, sliding log: `request_log.len() < 0` is false and `front()` is `None`, the branch commented
+"should not happen if limit > 0" returns `Ok(Duration::ZERO)`, and `acquire()` takes it for a grant: the first
+poll of every caller reaches the wrapped service, no permit exists or is taken. (Code and model agree.) -/
+theorem limit_zero_log_admits_everybody (cfg : Cfg) (hL : cfg.limit = 0) (hk : cfg.kind = .slog) (s : State)
+    (hts : s.lim.ts = []) (c : Nat) (rej woke : Bool) (fx : Fx) (hph : phaseOf s c = some .fresh) :
+    (∃ rest, (stepS cfg s (.poll c rej woke fx)).log = s.log ++ Ev.innerCall c s.serial :: rest) ∧
+    (stepS cfg s (.poll c rej woke fx)).lim.grants = s.lim.grants ∧ (stepS cfg s (.poll c rej woke fx)).lim.ts = [] := by
+  simp only [stepS, hph]
+  exact limit_zero_log_admits cfg s c rej fx hL hk hts
+
+/-- `refresh_period = 0`, fixed window or sliding log (limit ≥ 1): every `try_acquire` refreshes the window /
+empties the log first, so every call is admitted at once — windows of length zero, each with one admission. -/
+theorem period_zero_admits_everybody (cfg : Cfg) (hP : cfg.period = 0) (hL : 1 ≤ cfg.limit) (hk : cfg.kind ≠ .counter)
+    (s : State) (c : Nat) (rej woke : Bool) (fx : Fx) (hph : phaseOf s c = some .fresh) :
+    ∃ rest, (stepS cfg s (.poll c rej woke fx)).log = s.log ++ Ev.innerCall c s.serial :: rest := by
+  simp only [stepS, hph]
+  exact pollFresh_admits cfg s c rej fx (period_zero_always_room cfg s.lim s.now fx hP hL hk)
+
+/-- Non-vacuity of the three boundary notes: limit 0 fixed (everybody rejected), limit 0 sliding log (everybody
+admitted, no grant), period 0 fixed with limit 1 (three admissions at one instant). -/
+example :
+    let ops := [Op.arrive 1 ⟨0, .ok⟩, .arrive 2 ⟨0, .ok⟩, .arrive 3 ⟨0, .ok⟩, .poll 1 false false, .poll 2 false false,
+      .adv 7, .poll 3 false false]
+    (callStamps (run { kind := .fixed, limit := 0, period := 5, timeout := 0 } ops).tlog = []) ∧
+    (callStamps (run { kind := .slog, limit := 0, period := 5, timeout := 0 } ops).tlog = [(1, 0), (2, 0), (3, 7)] ∧
+      (run { kind := .slog, limit := 0, period := 5, timeout := 0 } ops).lim.grants = []) ∧
+    (callStamps (run { kind := .fixed, limit := 1, period := 0, timeout := 0 } ops).tlog = [(1, 0), (2, 0), (3, 7)]) := by
+  decide
 
 /-- Readiness of the wrapped service never touches the budget: an arrival (whether the caller gets
 its call future or is turned away because the wrapped service is not ready — `poll_ready` pending)
@@ -134,20 +306,18 @@ theorem each_service_is_one_limiter (cfg : Cfg) (ops : List FOp) (k : Nat) (s : 
 
 /-- … each service, separately, admits at most `limit_for_period` calls per window of its own (fixed window and
 sliding counter), and its admissions are exactly its limiter's grants … -/
-theorem each_service_windows (cfg : Cfg) (hk : cfg.kind = .fixed ∨ cfg.kind = .counter) (hL : 1 ≤ cfg.limit)
-    (hP : 1 ≤ cfg.period) (ops : List FOp) (k : Nat) (s : State) (h : lookup (frun cfg ops).insts k = some s) :
-    Cut cfg.period cfg.limit s.lim.wins ∧ flat s.lim.wins = s.admits.map Prod.snd := by
+theorem each_service_windows (cfg : Cfg) (hG : Good cfg) (hk : cfg.kind ≠ .slog)
+    (ops : List FOp) (k : Nat) (s : State) (h : lookup (frun cfg ops).insts k = some s) :
+    ∃ w, Cut cfg.period cfg.limit w ∧ flat w = (callStamps s.tlog).map Prod.snd := by
   obtain ⟨ops', rfl⟩ := frun_reach cfg ops k s h
-  rcases hk with hk | hk
-  · exact fixed_windows cfg hk hL hP ops'
-  · exact counter_windows cfg hk hL hP ops'
+  exact windows_exist cfg hG hk ops'
 
 /-- … and, for the sliding log, any `limit_for_period + 1` consecutive admissions of one service span at least
 `refresh_period`. -/
 theorem each_service_log_span (cfg : Cfg) (hk : cfg.kind = .slog) (hL : 1 ≤ cfg.limit) (hP : 1 ≤ cfg.period)
     (ops : List FOp) (k : Nat) (s : State) (h : lookup (frun cfg ops).insts k = some s) (i : Nat)
-    (hi : i + cfg.limit < (s.admits.map Prod.snd).length) :
-    (s.admits.map Prod.snd)[i]'(by omega) + cfg.period ≤ (s.admits.map Prod.snd)[i + cfg.limit] := by
+    (hi : i + cfg.limit < ((callStamps s.tlog).map Prod.snd).length) :
+    ((callStamps s.tlog).map Prod.snd)[i]'(by omega) + cfg.period ≤ ((callStamps s.tlog).map Prod.snd)[i + cfg.limit] := by
   obtain ⟨ops', rfl⟩ := frun_reach cfg ops k s h
   exact log_span cfg hk hL hP ops' i hi
 
@@ -166,14 +336,15 @@ theorem presets_meet_hypotheses (u n rate b : Nat) (hu : 1 ≤ u) (hn : 1 ≤ n)
 /-- `per_second(n)`: at most `n` admissions in each of the limiter's windows, which are at least 1000 ms apart. -/
 theorem per_second_windows (n : Nat) (hn : 1 ≤ n) (ops : List Op) :
     Cut 1000 n (run (perSecond n) ops).lim.wins ∧
-    flat (run (perSecond n) ops).lim.wins = (run (perSecond n) ops).admits.map Prod.snd :=
+    flat (run (perSecond n) ops).lim.wins = (callStamps (run (perSecond n) ops).tlog).map Prod.snd :=
   fixed_windows (perSecond n) rfl hn (Nat.le_of_ble_eq_true rfl) ops
 
-/-- `burst(rate, burst)`: at most `rate + burst` admissions in each of the sliding counter's buckets of 1000 ms. -/
-theorem burst_windows (rate b : Nat) (hr : 1 ≤ rate + b) (ops : List Op) :
+/-- `burst(rate, burst)`: at most `rate + burst` admissions in each of the sliding counter's buckets of 1000 ms —
+as long as `rate + burst ≤ 10⁸` (a one-second bucket is `10⁹` ns ≥ `10 · limit`). -/
+theorem burst_windows (rate b : Nat) (hr : 1 ≤ rate + b) (hbig : rate + b ≤ 100000000) (ops : List Op) :
     Cut 1000 (rate + b) (run (burst rate b) ops).lim.wins ∧
-    flat (run (burst rate b) ops).lim.wins = (run (burst rate b) ops).admits.map Prod.snd :=
-  counter_windows (burst rate b) rfl hr (Nat.le_of_ble_eq_true rfl) ops
+    flat (run (burst rate b) ops).lim.wins = (callStamps (run (burst rate b) ops).tlog).map Prod.snd :=
+  counter_windows (burst rate b) rfl hr (Nat.le_of_ble_eq_true rfl) (by show 10 * (rate + b) ≤ 1000 * 1000000; omega) ops
 
 /-- Non-vacuity (two services from one layer, limit 1, period 100, fixed). Service 0 is built at t = 0 and admits
 caller 1; caller 2 finds its window used up. Service 1 is built at t = 30 by its first caller (3) and admits it at
